@@ -7,7 +7,7 @@ from common import *
 import gen_vdesigns as GV
 import gen_designs as G
 
-KINDS = ['plan', 'lib', 'hier', 'hier', 'uart', 'hil', 'gated', 'behav', 'msg']
+KINDS = ['plan', 'lib', 'hier', 'params', 'hier', 'uart', 'hil', 'gated', 'behav', 'msg', 'params']
 
 
 def all_objs(o, acc=None):
@@ -58,6 +58,8 @@ def _build(kind, rng, tier):
         return behav(rng)
     if kind == 'msg':
         return msg(rng)
+    if kind == 'params':
+        return params(rng, depth=rng.randint(2, 4))
     raise Exception(kind)
 
 
@@ -244,6 +246,87 @@ def msg(rng):
     gen = UARTMsgGenerator(hw, 'gen', tx, 2 * n * 9600, 9600, text)
     return dict(hw=hw, tops=[hw, gen] + [c for c in gen.children.values() if len(c.children) or c.isClockable()][:4],
                 inputs={}, desc=dict(msg=text, n=n))
+
+
+# ------------------------------------------------------------------------------------------------
+# parameters forwarded through 2-4 hierarchy levels, renamed at every level, read by behavioural methods during simulation
+def param_classes():
+    import py4hw
+
+    class PReg(py4hw.Logic):
+        def __init__(self, parent, name, d, clear, q, init):
+            super().__init__(parent, name)
+            self.d = self.addIn('d', d)
+            self.clear = self.addIn('clear', clear)
+            self.q = self.addOut('q', q)
+            self.addParameter('INIT', init)
+
+        def clock(self):
+            if (self.clear.get() == 1):
+                self.q.prepare(self.getParameterValue('INIT'))
+            else:
+                self.q.prepare(self.d.get())
+
+    class PAdd(py4hw.Logic):
+        def __init__(self, parent, name, a, r, k):
+            super().__init__(parent, name)
+            self.a = self.addIn('a', a)
+            self.r = self.addOut('r', r)
+            self.addParameter('K', k)
+
+        def propagate(self):
+            self.r.put(self.a.get() + self.getParameterValue('K'))
+
+    class PBox(py4hw.Logic):
+        pass
+    return PReg, PAdd, PBox
+
+
+PARAM_NAMES = [['START', 'RESET_TO', 'BASE', 'ROOTV'], ['P1', 'P2', 'P3', 'P4'], ['START', 'RESET_TO', 'BASE', 'ROOTV'],
+               ['LO', 'MID', 'HI', 'TOPV'], ['INIT', 'INIT', 'INIT', 'INIT'], ['START', 'START', 'BASE', 'BASE']]
+
+
+def params(rng, depth=2):
+    """PBox(level depth) -> … -> PBox(level 1) -> PReg(INIT) / PAdd(K): every level declares its own parameter (a different
+    name per level in most name sets; one set re-uses the leaf's name everywhere as a control) bound to the parent's
+    Parameter object, or — mixed in — to a direct value; a second, directly valued parameter on some boxes"""
+    import py4hw
+    PReg, PAdd, PBox = param_classes()
+    hw = py4hw.HWSystem()
+    W = rng.choice([4, 8])
+    names = rng.choice(PARAM_NAMES)
+    d, clear = hw.wire('d', W), hw.wire('clear')
+    tops = [hw]
+    cnt = [0]
+
+    def box(parent, name, level, din, q, pvalue):
+        """level >= 1: a PBox with parameter names[level-1]"""
+        b = PBox(parent, name)
+        tops.append(b)
+        b.addIn('d', din)
+        b.addIn('clear', clear)
+        b.addOut('q', q)
+        pn = names[level - 1]
+        b.addParameter(pn, pvalue)
+        if rng.chance(1, 3):
+            b.addParameter('GAIN', rng.randint(0, 5))
+        n = rng.randint(1, 2)
+        prev = din
+        for k in range(n):
+            cnt[0] += 1
+            nxt = q if k == n - 1 else b.wire(f'm{cnt[0]}', W)
+            pv = b.getParameter(pn) if not rng.chance(1, 5) else rng.randint(0, (1 << W) - 1)
+            if level > 1:
+                box(b, f'l{k}', level - 1, prev, nxt, pv)
+            elif rng.chance(1, 3):
+                tops.append(PAdd(b, f'a{k}', prev, nxt, pv))
+            else:
+                tops.append(PReg(b, f's{k}', prev, clear, nxt, pv))
+            prev = nxt
+        return b
+    q = hw.wire('q', W)
+    box(hw, 'bank', depth, d, q, rng.randint(1, (1 << W) - 1))
+    return dict(hw=hw, tops=tops[:8], inputs={'d': d, 'clear': clear}, desc=dict(params_depth=depth, names=names, W=W, objs=len(all_objs(hw))))
 
 
 # ------------------------------------------------------------------------------------------------
